@@ -199,3 +199,13 @@ for g in (RB,AP): shutil.copy('/repo/'+g, M+'/repo/'+g)
 #  M20 running not set -> async-close-early                       M21 racy split of Push's critical section -> conc-not-linearizable, conc-refused-not-full (sequentially invisible)
 #  M22 closed never set -> ring-pull-after-close, async-close-no-ring-close
 #  M23 parked-flag lost wake-up -> ring-lost-wakeup from the ping-pong liveness workload (round 45951 / 92926 / 153221 for seeds 2 / 3 / 1; sequentially invisible)
+
+# Owner-class mutants (a lifecycle guard of server_session.go / client.go dropped, so that a repeated
+# PLAY / RECORD / PAUSE replaces, re-creates or leaks a running queue) are exercised with a scratch
+# clone and ./check's isolation mode:
+#   git clone -q /repo /tmp/c16-owner-wt; edit; VERIF_REPO=/tmp/c16-owner-wt ./check C16
+# Last run: O1 PLAY re-creates the writer while playing -> VIOLATION owner-lost-writes, replay input
+#   {"side":"server-play","transport":"tcp","seq":["PLAY","PLAY"]};  O2 PAUSE keeps the writer ->
+#   owner-consumer-count [PLAY,PLAY,PAUSE];  O3 client Play accepted while playing -> owner-illegal-accepted
+#   [PLAY,PLAY];  O4 client Pause keeps the writer -> owner-consumer-count [RECORD,RECORD,PAUSE];
+#   O5 RECORD/UDP never starts the writer -> owner-consumer-count [RECORD].
